@@ -190,6 +190,8 @@ using Packets = std::vector<std::shared_ptr<Packet>>;
 #endif
 #if PFX == 5
 #define PL(s) "C05: " s
+#elif PFX == 4
+#define PL(s) "C04: " s   // wire fidelity of messages decoded after a history of other frames on the same decoder
 #elif PFX == 6
 #define PL(s) "C06: " s
 #elif PFX == 17
